@@ -86,6 +86,7 @@ void DataArray::appendData(DataType dtype, const void *data, const NDSize &count
         }
     }
 
+    const NDSize old_extent = extent;
     NDSize offset(extent.size(), 0);
     offset[axis] = extent[axis];
     extent[axis] += count[axis];
@@ -93,7 +94,13 @@ void DataArray::appendData(DataType dtype, const void *data, const NDSize &count
     //enlarge the DataArray to fit the new data
     dataExtent(extent);
 
-    setData(dtype, data, count, offset);
+    try {
+        setData(dtype, data, count, offset);
+    } catch (...) {
+        // nothing was appended: do not leave the array enlarged
+        dataExtent(old_extent);
+        throw;
+    }
 
 }
 
